@@ -33,6 +33,8 @@ type Scenario struct {
 	Body func(dir string) string
 	// MaxSteps per execution (0 = default)
 	MaxSteps int
+	// Record: journal every storage operation of the execution (vos.Journal) for crash-image enumeration
+	Record bool
 }
 
 type Viol struct {
@@ -72,6 +74,8 @@ type explorer struct {
 	branch   int
 	dir      string
 	violSeen map[string]bool
+	onExec   func(e *vsched.Exec, obs string) bool // optional: called for every completed execution; false stops
+	stopped  bool
 }
 
 func preemptionsBefore(pts []vsched.Point, i int) int {
@@ -94,7 +98,7 @@ type outcome struct {
 func runOnce(sc Scenario, dir string, prefix []int, onPoint func(e *vsched.Exec, key uint64) bool, trace bool) outcome {
 	os.RemoveAll(dir)
 	os.MkdirAll(dir, 0755)
-	vos.Reset(false)
+	vos.Reset(sc.Record)
 	cur = nil
 	var obs string
 	e := vsched.Run(prefix, vsched.Options{MaxSteps: sc.MaxSteps, OnPoint: onPoint, KeepTrace: trace}, func() { obs = sc.Body(dir) })
@@ -226,6 +230,13 @@ func (x *explorer) explore(prefix []int, top bool) {
 	} else if count {
 		x.st.Outcomes[o.obs]++
 		x.check(o)
+		if x.onExec != nil && !x.onExec(o.e, o.obs) {
+			x.stopped = true
+		}
+	}
+	if x.stopped {
+		x.st.Complete = false
+		return
 	}
 	for i := len(prefix); i < last; i++ {
 		p := e.Points[i]
@@ -266,6 +277,24 @@ func ExploreShard(sc Scenario, bound int, deadline time.Time, shard, n int) Stat
 	os.RemoveAll(x.dir)
 	return x.st
 }
+
+// ExploreLocal explores sc in this process (one worker) and hands every completed execution to onExec right
+// after it ran (vos.Journal still holds its journal when sc.Record is set). onExec returns false to stop.
+func ExploreLocal(sc Scenario, bound int, deadline time.Time, onExec func(e *vsched.Exec, obs string) bool) Stats {
+	x := &explorer{sc: sc, bound: bound, deadline: deadline, shard: 0, n: 1, visited: map[uint64]int{}, violSeen: map[string]bool{},
+		dir: fmt.Sprintf("%s/local", scratchBase()), onExec: onExec}
+	x.st = Stats{Scenario: sc.Name, Bound: bound, Outcomes: map[string]int{}, Complete: true}
+	x.explore(nil, true)
+	x.st.States = int64(len(x.visited))
+	os.RemoveAll(x.dir)
+	return x.st
+}
+
+// ScratchDir of the local explorer (the directory the scenario body receives).
+func LocalDir() string { return fmt.Sprintf("%s/local", scratchBase()) }
+
+// Cleanup removes the scratch area of this process.
+func Cleanup() { os.RemoveAll(scratchBase()) }
 
 var scratch string
 
